@@ -86,7 +86,7 @@ def nontrivial_c01(e):
 PROPS = {
     "C01": {
         "bin": "arith",
-        "modes": {"quick": ["debug"], "thorough": ["debug", "release"]},
+        "modes": {"quick": ["debug", "release"], "thorough": ["debug", "release"]},
         "prims": True,
         "rule": "one case = (operation, width, signedness, operand tuple), all forms and all digit types of the width evaluated; "
                 "operands: fixed sign/overflow corners, carry and borrow chains through k whole digits at byte/u16/u32/u64 granularity, "
